@@ -1,5 +1,7 @@
 (* C15 — Template text is normalised by the line-joining rule and nothing else.
    Property theorems only. *)
+(* source tie by translation: the lemmas of these files are obligations of this property *)
+From Soy Require Import Proofs.SourceTieText.
 From Soy Require Import Model.Bytes.
 From Soy Require Import Model.Utf8.
 From Soy Require Import Model.Outcome.
